@@ -14,8 +14,8 @@
 (*   path: Seq(relationship name)                                              *)
 EXTENDS Integers, Sequences, FiniteSets, TLC, SequencesExt
 
-Types == {"ta", "tb", "tc", "td"}
-AttrsOf(t) == CASE t = "ta" -> {"x", "y", "X"} [] t = "tb" -> {"z"} [] t = "td" -> {"w"} [] OTHER -> {}
+Types == {"ta", "tb", "tc", "td", "e"}     \* "e": a type whose name has one letter, with one attribute "v"
+AttrsOf(t) == CASE t = "ta" -> {"x", "y", "X"} [] t = "tb" -> {"z"} [] t = "td" -> {"w"} [] t = "e" -> {"v"} [] OTHER -> {}
 RelsOf(t)  == CASE t = "ta" -> {"r", "rs", "t"} [] t = "tb" -> {"q", "s"} [] t = "td" -> {"q"} [] OTHER -> {}
 FieldsOf(t) == AttrsOf(t) \cup RelsOf(t)
 \* tb.q and td.q carry the same name and lead to different types: r.q and t.q meet them at the same depth
